@@ -179,12 +179,12 @@ def discharge(obls, timeout_ms=60000, second_solver=False, quick_ms=4000):
     todo = [o for o in todo if id(o) not in hinted]
     rest = run(_solve_z3py, "z3-5.1.0", todo, quick_ms, "recent")
     rest = run(_solve_z3cli, "z3-4.8.12", rest, quick_ms, "all")
-    rest = run(_solve_z3newcli, "z3-5.1.0-cli", rest, max(quick_ms * 2, min(timeout_ms, 15000)), "all")
     for variant in ("relevant:2", "recent:20", "recent:50", "entry+recent"):
         rest = run(_solve_z3py, "z3-5.1.0", rest, quick_ms, variant)
         rest = run(_solve_z3cli, "z3-4.8.12", rest, quick_ms, variant)
     rest = run(_solve_z3cli, "z3-4.8.12", rest, quick_ms, "recent")
     rest = run(_solve_z3py, "z3-5.1.0", rest, quick_ms, "all")
+    rest = run(_solve_z3newcli, "z3-5.1.0-cli", rest, max(quick_ms * 2, min(timeout_ms, 15000)), "all")
     rest = run(_solve_z3cli, "z3-4.8.12", rest, min(timeout_ms, 30000), "all")
     if timeout_ms > quick_ms:
         rest = run(_solve_z3py, "z3-5.1.0", rest, timeout_ms, "all")
@@ -192,7 +192,7 @@ def discharge(obls, timeout_ms=60000, second_solver=False, quick_ms=4000):
     # second chance (robustness on a loaded machine, never a different verdict rule): what is still open is retried with four times
     # the budget on the rung remembered for it (or recent / relevant / all), on both z3 versions
     if rest and not os.environ.get("VERIF_NO_SECOND_CHANCE"):
-        for variant_of in (lambda o: (hints.get(o.name) or [None, "recent"])[1], lambda o: "relevant:2", lambda o: "all"):
+        for variant_of in (lambda o: (hints.get(o.name) or [None, "relevant:2"])[1], lambda o: "recent", lambda o: "relevant:2", lambda o: "all"):
             for fn, backend in ((_solve_z3py, "z3-5.1.0"), (_solve_z3cli, "z3-4.8.12")):
                 if not rest:
                     break
